@@ -252,7 +252,7 @@ def run(tier: str, replay: str | None = None):
         cases = [json.loads(Path(replay).read_text())["input"]]
     else:
         cases = list(load_corpus())
-        n = 6000 if tier == "quick" else 30000
+        n = 5000 if tier == "quick" else 30000
         for _ in range(n):
             any_ok = rng.random() < 0.2
             dep = 4 if rng.random() < 0.25 else 3
@@ -324,16 +324,16 @@ def run(tier: str, replay: str | None = None):
             results = lib.coq_eval(HEADER + f"Definition pool : list obj := {pool_term}.\n", [r["term"] for r in rows], name="c04",
                                    shard=300, jobs=6)
             for r, res in zip(rows, results):
-                ab, ab_x, ac, aa, aa_x, (ma, mb), (bare, varfix, hasany, unsafe, variadic, newtype, reflok) = res
+                ab, ab_x, ac, aa, aa_x, (ma, mb), (bare, varfix, hasany, unsafe, variadic, newtype, reflok, strict) = res
                 r["model"] = {"ab": ab, "ab_x": ab_x, "ac": ac, "aa": aa, "aa_x": aa_x}
                 r["member_a"], r["member_b"] = ma, mb
-                r["clauses"] = {"bare_generic": bare, "variadic_into_fixed": varfix, "has_any": hasany, "literal_dedup": unsafe, "variadic_member": variadic, "newtype": newtype, "refl_ok": reflok}
+                r["clauses"] = {"bare_generic": bare, "variadic_into_fixed": varfix, "has_any": hasany, "literal_dedup": unsafe, "variadic_member": variadic, "newtype": newtype, "refl_ok": reflok, "strict": strict}
         except (RuntimeError, ValueError) as ex:
             rep.violation({"kind": "broken-correspondence", "correspondence": "Core.CanAssign evaluation", "detail": str(ex)[-1500:]}, no_failing_input=True)
 
     findings = {f["id"]: f for f in lib.load_known_findings(PROP)["findings"]}
     failing, corr, validated, distinct, n_sound_checked, lenient = [], [], 0, set(), 0, 0
-    n_b_members = n_b_without_member = n_refl_guard = 0
+    n_b_members = n_b_without_member = n_refl_guard = n_strict = n_accept_anyfree = 0
     for r in rows:
         bad = [k for k, v in r["laws"].items() if not v]
         witness = None
@@ -345,6 +345,13 @@ def run(tier: str, replay: str | None = None):
                 validated += 1
             distinct.add(json.dumps(r["case"], sort_keys=True))
             n_refl_guard += bool(r["clauses"]["refl_ok"])
+            # the decidable guard of C04_strict_sound: a strict derivation implies acceptance (theorem
+            # C04_strict_implies_accept + correspondence), so the implementation must accept
+            if r["clauses"]["strict"]:
+                n_strict += 1
+                if not r["obs"]["ab"]:
+                    bad.append("strict_derivation_rejected")
+            n_accept_anyfree += bool(r["obs"]["ab"] and not r["clauses"]["has_any"])
             if r["clauses"]["refl_ok"] and not (r["obs"]["aa"] and r["obs"]["aa_x"]) and "refl" not in bad:
                 bad.append("refl")  # the theorem C04_reflexive predicts acceptance
             if r["obs"]["ab"] and not r["clauses"]["has_any"]:
@@ -368,8 +375,8 @@ def run(tier: str, replay: str | None = None):
             attributed = False
             if "model" in r and not [k for k in r["obs"] if r["obs"][k] != r["model"][k]]:
                 cl = r["clauses"]
-                for fid, cond in (("C04-literal-dedup-unsound", set(bad) <= {"sound"} and cl["literal_dedup"]),
-                                  ("C04-newtype-accepts-supertype", set(bad) <= {"sound"} and cl["newtype"]),
+                for fid, cond in (("C04-literal-dedup-unsound", set(bad) <= {"sound"} and cl["literal_dedup"] and not cl["strict"]),
+                                  ("C04-newtype-accepts-supertype", set(bad) <= {"sound"} and cl["newtype"] and not cl["strict"]),
                                   ):
                     if cond and fid in findings:
                         rep.known(fid, findings[fid]["what"])
@@ -402,7 +409,8 @@ def run(tier: str, replay: str | None = None):
         "structurally from B, A and C (members by construction)" % len(POOL),
         samples=[r["case"] for r in rows[:3]],
         traces_validated_against_impl=validated,
-        input_distribution={**hist, "soundness_pairs_checked": n_sound_checked, "values_in_reflexive_fragment_refl_ok": n_refl_guard, "objects_of_B_tested": n_b_members,
+        input_distribution={**hist, "soundness_pairs_checked": n_sound_checked, "values_in_reflexive_fragment_refl_ok": n_refl_guard,
+                            "accepted_anyfree_pairs": n_accept_anyfree, "pairs_with_strict_derivation_theorem_guard": n_strict, "objects_of_B_tested": n_b_members,
                             "accepted_pairs_with_no_known_object_of_B": n_b_without_member, "lenient_pairs_excluded": lenient, "out_of_fragment": oof, "cases": len(cases)},
         correspondence_mismatches=len(corr),
         oracle_failures_unattributed=len(failing),
